@@ -34,6 +34,7 @@ type Options struct {
 	Serial   bool // attach serial writer
 	ChanCap  int  // capacity of the sample channels (0: production value 200)
 	DebugLCD bool
+	DebugCPU bool // instruction trace on standard output
 }
 
 type stopSentinel struct{}
@@ -338,6 +339,7 @@ func New(img []byte, missing bool, opt Options) (*Machine, *PanicInfo) {
 		DisableVideoOutput: !opt.Video,
 		DisableAudioOutput: !opt.Audio,
 		DebugLCD:           opt.DebugLCD,
+		DebugCPU:           opt.DebugCPU,
 	}
 	if opt.Serial {
 		cfg.SerialWriter = serialRec{m}
